@@ -11,7 +11,7 @@ Import ListNotations.
 Open Scope string_scope.
 
 Definition rv_runner (cs : list rcode) : runner :=
-  fun args tr => let '(ob, _, st) := run_rv_heap_tr isa_outer isa_inner cs args tr in (ob, st).
+  fun args tr => let '(ob, s, st) := run_rv_heap_tr isa_outer isa_inner cs args tr in (ob, st, hw s).
 
 Definition heap_rv_case (i r : sexp) : verdict :=
   let '(r, _, _) := split_all r in
